@@ -434,6 +434,33 @@ def gen_eds_item(rng, tricky=False, rich=None, connected=True):
     return j
 
 
+DUP_MODES = ["adjacent", "nonadjacent", "allsame"]
+
+
+def apply_dups(rng, items, mode, fresh):
+    """make the list contain identical items (deep copies, so byte-identical serializations):
+    adjacent (A A ...), non-adjacent (A B A ...), or all the same item; `fresh()` gives a new item"""
+    if not mode or mode == "none" or not items:
+        return items
+    items = list(items)
+    if mode == "allsame":
+        return [copy.deepcopy(items[0]) for _ in range(max(2, len(items)))]
+    if mode == "adjacent":
+        if len(items) == 1:
+            return [items[0], copy.deepcopy(items[0])]
+        i = rng.randrange(len(items) - 1)
+        items[i + 1] = copy.deepcopy(items[i])
+        return items
+    if mode == "nonadjacent":
+        while len(items) < 3:
+            items.append(fresh())
+        i = rng.randrange(len(items) - 2)
+        k = rng.randrange(i + 2, len(items))
+        items[k] = copy.deepcopy(items[i])
+        return items
+    raise ValueError(mode)
+
+
 GEN = {"mrs": gen_mrs_item, "dmrs": gen_dmrs_item, "eds": gen_eds_item}
 
 # selection queries for the test-suite input: (query text, naive row predicate over (i_id, p_id, r_id))
@@ -552,14 +579,13 @@ class C20(Check):
         n = rng.choice([0, 1, 1, 2, 2, 3, 3, 4, 5]) if n is None else n
         tricky = rng.random() < 0.5
         penman = "penman" in tgt or "penman" in src
-        items = []
-        for _ in range(n):
-            if rep == "mrs":
-                items.append(gen_mrs_item(rng, tricky and not penman))
-            elif rep == "dmrs":
-                items.append(gen_dmrs_item(rng, tricky and not penman))
-            else:
-                items.append(gen_eds_item(rng, tricky and not penman))
+        def fresh():
+            return GEN[rep](rng, tricky and not penman)
+        items = [fresh() for _ in range(n)]
+        dup = over.pop("dup", None)
+        if dup is None and n >= 1 and rng.random() < 0.4:
+            dup = rng.choice(DUP_MODES)
+        items = apply_dups(rng, items, dup, fresh)
         src_lines = src != "ace" and rng.random() < 0.3
         tgt_lines = rng.random() < 0.3
         case = {
@@ -573,6 +599,7 @@ class C20(Check):
             "input": rng.choice(["path", "pathobj", "file", "stream"]) if (src_lines or src == "ace" or rng.random() < 0.7)
             else "dir",
             "select": rng.randrange(len(SELECTS)),
+            "dup": dup or "none",
         }
         case.update(over)
         return case
@@ -620,6 +647,26 @@ class C20(Check):
         for q in range(len(SELECTS)):
             yield self.mk_case(rng, "simplemrs", rng.choice(["mrsjson", "mrx", "simplemrs", "dmrx", "eds"]), n=5,
                                input="dir", src="simplemrs", select=q)
+        # --- duplicates (identical items adjacent / non-adjacent / all the same) for EVERY input kind, every
+        #     selection query, and the '-lines' sources
+        for mode in DUP_MODES:
+            for inp in ("path", "pathobj", "file", "stream"):
+                for s in ("simplemrs", "dmrsjson", "eds"):
+                    t = rng.choice([x for x in TARGETS if supported(s, x)])
+                    yield self.mk_case(rng, s, t, n=3, dup=mode, input=inp, src=SPELLINGS[s][0])
+            for q in range(len(SELECTS)):
+                s = ("simplemrs", "mrsjson", "dmrx", "edsjson", "simpledmrs", "mrx", "eds")[q]
+                t = rng.choice([x for x in TARGETS if supported(s, x)])
+                yield self.mk_case(rng, s, t, n=5, dup=mode, input="dir", src=SPELLINGS[s][0], select=q)
+                yield self.mk_case(rng, "simplemrs", "mrsjson", n=4, dup=mode, input="dir", src="simplemrs",
+                                   tgt="mrsjson", select=q)
+            for s in SOURCES:
+                if s == "ace":
+                    yield self.mk_case(rng, s, "simplemrs", n=3, dup=mode, input="stream", src="ace")
+                    continue
+                t = rng.choice([x for x in TARGETS if supported(s, x)])
+                yield self.mk_case(rng, s, t, n=3, dup=mode, src=SPELLINGS[s][0] + "-lines",
+                                   input=rng.choice(["path", "pathobj", "file", "stream"]))
         # --- error isolation: PENMAN targets with disconnected graphs among the items
         for s, t in ISOLATION_PAIRS:
             for nn in (1, 3, 4):
@@ -967,6 +1014,22 @@ class C20(Check):
                                 fail("transcoding to another format of the same representation and back changes a structure "
                                      "beyond what both formats carry", repr((src, tgt, i, vo, va)))
                                 break
+            # (d) purity: the same input converted again -- directly, and after a conversion with other
+            #     options (other indent, other target) in the same process -- gives the identical text
+            out2, err2 = self.run_convert(case)
+            if err2 is not None or out2 != out:
+                fail("converting the same input twice in one process gives different text",
+                     repr((src, tgt, err2, (out2 or "")[:200], out[:200])))
+            other = dict(case)
+            other["indent"] = 2 if case["indent"] is None else None
+            alts = [x for x in TARGETS if supported(src, x) and x != tgt]
+            other["tgt"] = alts[(len(out) + len(case["items"])) % len(alts)]
+            other["properties"] = not case["properties"]
+            self.run_convert(other)
+            out3, err3 = self.run_convert(case)
+            if err3 is not None or out3 != out:
+                fail("converting the same input again after a conversion with other options gives different text",
+                     repr((src, tgt, other["tgt"], err3, (out3 or "")[:200], out[:200])))
         return fails
 
     def oracle_plan(self, case, res, fail):
@@ -1030,6 +1093,11 @@ class C20(Check):
         inc("pair:%s->%s" % (REP[s], REP[t]))
         inc("input:" + case["input"])
         inc("indent:" + str(case["indent"]))
+        inc("dup:" + case.get("dup", "none"))
+        texts = [json.dumps(j, sort_keys=True) for j in case["items"]]
+        if len(set(texts)) < len(texts):
+            inc("has_identical_items")
+            inc("has_identical_items:" + case["input"] + ("+lines-source" if sl else ""))
         inc("props:%s lnk:%s predmod:%s" % (case["properties"], case["lnk"], case["predmod"]))
         if case["input"] == "dir":
             inc("select:" + SELECTS[case["select"]][0])
